@@ -213,5 +213,6 @@ class RydbergLindbladian:
         """Return the energy expectation value E=tr(H𝜌)"""
         en = (self.h_eff(state.data)).trace()
 
-        assert torch.allclose(en.imag, torch.zeros_like(en.imag), atol=1e-8)
+        # rounding errors scale with the size of the result
+        assert en.imag.abs() <= 1e-8 * max(1.0, en.abs().item())
         return en.real
